@@ -357,4 +357,44 @@ def run(ctx, prog):
     ctx.inst('C11.R3', idf.short, 'uncompilable filter ⇒ scan with the reference predicate', ok, 'scan only on the None edge of compile_filter_to_bitmap, closure calls metadata_filter::matches')
     users = sorted(set(c.body.short.split('::{')[0] for c in prog.callers_of('HnswBackend::ids_for_metadata_filter')))
     ctx.inst('C11.R3', 'ids_for_metadata_filter', 'used by filtered batch delete and the start-up recount', any('batch_delete_by_metadata_filter' in u for u in users) and any('main' in u for u in users), 'callers: %s' % users)
+    # ------------------------------------------------------------------ R4 posting symmetry
+    ctx.rule('C11.R4', 'posting symmetry: for every posting structure of MetadataInvertedIndex, remove_doc takes the document out under exactly the value '
+                       'conditions under which insert_doc put it in (conditions on the key/value pair: numeric-parsable, NaN; presence tests on the maps are '
+                       'ignored), and both walk the same metadata map — otherwise an update that reuses the internal id leaves a stale posting that later '
+                       'filters include or subtract')
+    ins = ctx.body('C11.R4', 'MetadataInvertedIndex::insert_doc')
+    rem = ctx.body('C11.R4', 'MetadataInvertedIndex::remove_doc')
+
+    def _postings(b, method):
+        of_ = flow.Origin(b)
+        preds = [(i, tg, p) for i, blk in enumerate(b.blocks) if blk['t']['k'] == 'switch' and i in b.live_blocks() for tg, p in flow.switch_edge_predicates(b, i, of_)]
+        value_edges = [(i, tg, p) for i, tg, p in preds if 'arg:self' not in p]
+        out = {}
+        for c in b.calls:
+            if not (c.callee and re.search(r'roaring::treemap::\w+::%s$' % method, c.callee) and c.args):
+                continue
+            r = flow.render(of_.of_operand(c.args[0]))
+            m = re.search(r'arg:self→MetadataInvertedIndex\.(\w+)', r)
+            if not m or m.group(1) == 'alive':
+                continue
+            doc = flow.render(of_.of_operand(c.args[1])) if len(c.args) > 1 else ''
+            must = set()
+            for i, tg, p in value_edges:
+                if c.bb not in b.reach([0], avoid_edges=[(i, tg)]):
+                    must.add(p)
+            out.setdefault(m.group(1), []).append((c, frozenset(must), doc))
+        return out
+    if ins is not None and rem is not None:
+        pi = _postings(ins, 'insert')
+        pr = _postings(rem, 'remove')
+        ctx.inst('C11.R4', 'MetadataInvertedIndex', 'insert_doc and remove_doc maintain the same posting structures', sorted(pi) == sorted(pr) and len(pi) >= 4,
+                 'insert_doc: %s; remove_doc: %s' % (sorted(pi), sorted(pr)))
+        for f in sorted(set(pi) | set(pr)):
+            ci = set(m for _, m, _ in pi.get(f, []))
+            cr = set(m for _, m, _ in pr.get(f, []))
+            docs_ok = all(d == 'arg:doc_id' for _, _, d in pi.get(f, []) + pr.get(f, []))
+            def _fmt(cs):
+                return ' | '.join(sorted('{' + ', '.join(sorted(re.sub(r"<map::Iter<'a, K, V> as iterator::Iterator>::next\(HashMap::iter\(arg:metadata\)\)@Some→Some\.0", 'kv', x) for x in m)) + '}' for m in cs)) or 'never'
+            ctx.inst('C11.R4', 'MetadataInvertedIndex.%s' % f, 'removed under the conditions it is inserted under', bool(ci) and ci == cr and docs_ok,
+                     'insert_doc: %s; remove_doc: %s' % (_fmt(ci), _fmt(cr)))
     ctx.stat('functions_analysed', len(set(i['key'].split(' | ')[1] for i in ctx.instances)))
